@@ -3,7 +3,7 @@
 //! Law B (canonical-form codecs): decode(b) = Ok(v)  =>  encode(v) == b.
 
 use crate::cbor_gen::*;
-use crate::targets::{targets, Dec, Target};
+use crate::targets::{codec_targets, Dec, Target};
 use proptest::prelude::*;
 use serde::{Deserialize, Serialize};
 use std::cell::RefCell;
@@ -13,7 +13,7 @@ thread_local! {
     static TARGETS: RefCell<Option<std::rc::Rc<Vec<Target>>>> = const { RefCell::new(None) };
 }
 pub fn all_targets() -> std::rc::Rc<Vec<Target>> {
-    TARGETS.with(|t| t.borrow_mut().get_or_insert_with(|| std::rc::Rc::new(targets())).clone())
+    TARGETS.with(|t| t.borrow_mut().get_or_insert_with(|| std::rc::Rc::new(codec_targets())).clone())
 }
 
 /// Law A + Law B on one input for one target. Returns whether it was accepted.
